@@ -260,3 +260,174 @@ Proof.
   - eapply Forall2_impl; [|exact F2]. intros a b C. eapply copy_rel_mono; [| |exact C]; [apply E1|].
     apply heap_extends_halloc; auto.
 Qed.
+
+(* ====================================================================== *)
+(* A4 — repetition deep-copies                                             *)
+(* ====================================================================== *)
+(* cells reachable from a cell through any-contents, array elements and map values *)
+Inductive reach (h : heap) : loc -> loc -> Prop :=
+| reach_refl l : reach h l l
+| reach_any l t i x : hget h l = Some (HAny t i) -> reach h i x -> reach h l x
+| reach_arr l els i x : hget h l = Some (HArr els) -> In i els -> reach h i x -> reach h l x
+| reach_map l m k i x : hget h l = Some (HMap m) -> In (k, i) (pairs m) -> reach h i x -> reach h l x.
+
+(* everything reachable from c is allocated and at or above N *)
+Definition all_fresh (N : positive) (h : heap) (c : loc) : Prop :=
+  forall x, reach h c x -> N <= x /\ hget h x <> None.
+
+Lemma all_fresh_child_any N h c t i : all_fresh N h c -> hget h c = Some (HAny t i) -> all_fresh N h i.
+Proof. intros F H x R. apply F. eapply reach_any; eauto. Qed.
+Lemma all_fresh_child_arr N h c els i : all_fresh N h c -> hget h c = Some (HArr els) -> In i els -> all_fresh N h i.
+Proof. intros F H I x R. apply F. eapply reach_arr; eauto. Qed.
+Lemma all_fresh_child_map N h c m k i :
+  all_fresh N h c -> hget h c = Some (HMap m) -> In (k, i) (pairs m) -> all_fresh N h i.
+Proof. intros F H I x R. apply F. eapply reach_map; eauto. Qed.
+
+Lemma reach_back N h h' c x :
+  heap_extends h h' -> all_fresh N h c -> reach h' c x -> reach h c x.
+Proof.
+  intros [_ E] F R. induction R as [l | l t i x H R IH | l els i x H I R IH | l m k i x H I R IH].
+  - constructor.
+  - destruct (F l (reach_refl _ _)) as [_ Hl]. destruct (hget h l) as [v|] eqn:G; [|congruence].
+    pose proof (E _ _ G) as G'. rewrite H in G'. inversion G'; subst v.
+    eapply reach_any; eauto. apply IH. eapply all_fresh_child_any; eauto.
+  - destruct (F l (reach_refl _ _)) as [_ Hl]. destruct (hget h l) as [v|] eqn:G; [|congruence].
+    pose proof (E _ _ G) as G'. rewrite H in G'. inversion G'; subst v.
+    eapply reach_arr; eauto. apply IH. eapply all_fresh_child_arr; eauto.
+  - destruct (F l (reach_refl _ _)) as [_ Hl]. destruct (hget h l) as [v|] eqn:G; [|congruence].
+    pose proof (E _ _ G) as G'. rewrite H in G'. inversion G'; subst v.
+    eapply reach_map; eauto. apply IH. eapply all_fresh_child_map; eauto.
+Qed.
+
+Lemma all_fresh_mono N N' h h' c :
+  N' <= N -> heap_extends h h' -> all_fresh N h c -> all_fresh N' h' c.
+Proof.
+  intros LN E F x R. apply (reach_back N h h' c x E F) in R. destruct (F x R) as [A B].
+  split; [lia|]. destruct (hget h x) as [v|] eqn:G; [|congruence]. rewrite (proj2 E _ _ G). discriminate.
+Qed.
+
+(* a freshly allocated cell all of whose children are all_fresh *)
+Lemma all_fresh_new N h v :
+  fresh_ok h -> N <= hnext h ->
+  match v with
+  | HAny _ i => all_fresh N h i
+  | HArr els => Forall (all_fresh N h) els
+  | HMap m => Forall (fun p => all_fresh N h (snd p)) (pairs m)
+  | _ => True
+  end ->
+  all_fresh N (snd (halloc h v)) (hnext h).
+Proof.
+  intros W LN Hv x R.
+  assert (E : heap_extends h (snd (halloc h v))) by (apply heap_extends_halloc; auto).
+  pose proof (hget_halloc_new h v) as G.
+  inversion R as [l | l t i x0 H R' | l els i x0 H I R' | l m k i x0 H I R']; subst.
+  - split; [auto | rewrite G; discriminate].
+  - rewrite G in H; inversion H; subst v. eapply all_fresh_mono; [| exact E | exact Hv | exact R']. lia.
+  - rewrite G in H; inversion H; subst v. rewrite Forall_forall in Hv.
+    eapply all_fresh_mono; [| exact E | apply Hv; exact I | exact R']. lia.
+  - rewrite G in H; inversion H; subst v. rewrite Forall_forall in Hv.
+    eapply all_fresh_mono; [| exact E | apply (Hv (k, i)); exact I | exact R']. lia.
+Qed.
+
+Lemma Forall2_Forall_r {A B} (Q : B -> Prop) (l : list A) (l' : list B) :
+  Forall2 (fun _ b => Q b) l l' -> Forall Q l'.
+Proof. intro F. induction F; constructor; auto. Qed.
+
+Lemma deep_copy_spec fuel : forall l s r s',
+  deep_copy fuel l s = (r, s') -> wf s ->
+  only_extends s s' /\ forall c, r = Ok c -> all_fresh (hnext (st_heap s)) (st_heap s') c.
+Proof.
+  induction fuel as [|f IH]; intros l s r s' H W; simpl in H.
+  { apply crash_inv in H; destruct H as [-> ->]. split; [apply only_extends_refl; auto | discriminate]. }
+  apply bind_inv in H. destruct H as [(v & s1 & H1 & H) | (e & H1 & ->)];
+    apply load_inv in H1; destruct H1 as [-> H1]; [|split; [apply only_extends_refl; auto | discriminate]].
+  destruct H1 as [(v' & Hv & Hg) | [? _]]; [|discriminate]. inversion Hv; subst v'; clear Hv.
+  destruct v.
+  1-3: apply alloc_inv in H; destruct H as [-> ->]; split; [apply only_extends_alloc; auto|];
+       intros c E; inversion E; subst; clear E; simpl; apply all_fresh_new; auto; lia.
+  - (* any *)
+    apply bind_inv in H. destruct H as [(i' & s1 & H1 & H) | (e & H1 & ->)];
+      destruct (IH _ _ _ _ H1 W) as [X1 X2]; [|split; [auto|discriminate]].
+    specialize (X2 _ eq_refl). pose proof X1 as (E1 & W1 & U1).
+    apply alloc_inv in H; destruct H as [-> ->]. split.
+    + eapply only_extends_trans; [exact X1 | apply only_extends_alloc; auto].
+    + intros c E; inversion E; subst; clear E. simpl. apply all_fresh_new; auto. apply E1.
+  - (* array *)
+    apply bind_inv in H. destruct H as [(els' & s1 & H1 & H) | (e & H1 & ->)].
+    + destruct (mapM_ext (deep_copy f) (fun _ N h c => all_fresh N h c)
+                  ltac:(intros; eapply all_fresh_mono; eauto) ltac:(intros; eapply IH; eauto)
+                  _ _ _ _ H1 W) as [X1 X2].
+      specialize (X2 _ eq_refl). pose proof X1 as (E1 & W1 & U1).
+      apply alloc_inv in H; destruct H as [-> ->]. split.
+      * eapply only_extends_trans; [exact X1 | apply only_extends_alloc; auto].
+      * intros c E; inversion E; subst; clear E. simpl. apply all_fresh_new; auto; [apply E1|].
+        eapply Forall2_Forall_r; exact X2.
+    + destruct (mapM_ext (deep_copy f) (fun _ N h c => all_fresh N h c)
+                  ltac:(intros; eapply all_fresh_mono; eauto) ltac:(intros; eapply IH; eauto)
+                  _ _ _ _ H1 W) as [X1 X2]. split; [auto|discriminate].
+  - (* map *)
+    match type of H with bindM (mapM ?g _) _ _ = _ =>
+      assert (Hgm : forall k s0 r0 s0', g k s0 = (r0, s0') -> wf s0 ->
+                only_extends s0 s0' /\
+                forall b, r0 = Ok b -> all_fresh (hnext (st_heap s0)) (st_heap s0') (snd b))
+    end.
+    { intros k s0 r0 s0' Hk W0. simpl in Hk. destruct (plookup k (pairs m)) as [i|].
+      - apply bind_inv in Hk. destruct Hk as [(i' & s2 & K1 & Hk) | (e & K1 & ->)];
+          destruct (IH _ _ _ _ K1 W0) as [Y1 Y2]; [|split; [auto|discriminate]].
+        apply ret_inv in Hk; destruct Hk as [-> ->]. split; auto.
+        intros b E; inversion E; subst; simpl. apply Y2; auto.
+      - apply crash_inv in Hk; destruct Hk as [-> ->]. split; [apply only_extends_refl; auto|discriminate]. }
+    apply bind_inv in H. destruct H as [(ps & s1 & H1 & H) | (e & H1 & ->)];
+      destruct (mapM_ext _ (fun _ N h (p : str * loc) => all_fresh N h (snd p))
+                  ltac:(intros; eapply all_fresh_mono; eauto) Hgm _ _ _ _ H1 W) as [X1 X2];
+      [|split; [auto|discriminate]].
+    specialize (X2 _ eq_refl). pose proof X1 as (E1 & W1 & U1).
+    apply alloc_inv in H; destruct H as [-> ->]. split.
+    + eapply only_extends_trans; [exact X1 | apply only_extends_alloc; auto].
+    + intros c E; inversion E; subst; clear E. simpl. apply all_fresh_new; auto; [apply E1|].
+      simpl. eapply Forall2_Forall_r; exact X2.
+  - apply crash_inv in H; destruct H as [-> ->]. split; [apply only_extends_refl; auto | discriminate].
+Qed.
+
+(* xs * n: a fresh array cell, and NOTHING reachable from it existed before — nested arrays,
+   maps and any-boxes are copied too (deepCopy) *)
+Theorem repeat_fresh xs r s c s' :
+  wf s -> bin_arr BAsterisk xs r s = (Ok c, s') ->
+  heap_extends (st_heap s) (st_heap s') /\ s' = upd_heap (st_heap s') s /\
+  (exists els', hget (st_heap s') c = Some (HArr els')) /\
+  forall x, reach (st_heap s') c x -> hnext (st_heap s) <= x /\ hget (st_heap s) x = None.
+Proof.
+  intros W H. unfold bin_arr in H.
+  apply bind_inv in H. destruct H as [(fl & s1 & H1 & H) | (x & H1 & E)]; [|discriminate].
+  pose proof (ro_load_num _ _ _ _ H1); subst s1. clear H1.
+  destruct (go_int_exact fl) as [n|]; [|apply fail_inv in H; destruct H; discriminate].
+  destruct (Z.ltb n 0); [apply fail_inv in H; destruct H; discriminate|].
+  destruct (Z.ltb max_alloc _); [apply fail_inv in H; destruct H; discriminate|].
+  apply bind_inv in H. destruct H as [(d & s1 & H2 & H) | (x & H2 & E)]; [|discriminate].
+  apply depth_fuel_inv in H2; destruct H2 as [Ed ->]. inversion Ed; subst d; clear Ed.
+  apply bind_inv in H. destruct H as [(parts & s1 & H3 & H) | (x & H3 & E)]; [|discriminate].
+  assert (Qm : forall (a : unit) N N' h h' (b : list loc), N' <= N -> heap_extends h h' ->
+                 Forall (all_fresh N h) b -> Forall (all_fresh N' h') b).
+  { intros a N N' h h' b LN E F. eapply Forall_impl; [|exact F]. intros; eapply all_fresh_mono; eauto. }
+  assert (Hg : forall (a : unit) s0 r0 s0', mapM (deep_copy value_depth) xs s0 = (r0, s0') -> wf s0 ->
+                 only_extends s0 s0' /\
+                 forall b, r0 = Ok b -> Forall (all_fresh (hnext (st_heap s0)) (st_heap s0')) b).
+  { intros a s0 r0 s0' Hk W0.
+    destruct (mapM_ext (deep_copy value_depth) (fun _ N h c => all_fresh N h c)
+                ltac:(intros; eapply all_fresh_mono; eauto)
+                ltac:(intros; eapply deep_copy_spec; eauto) _ _ _ _ Hk W0) as [Y1 Y2].
+    split; auto. intros b E. eapply Forall2_Forall_r. apply Y2; exact E. }
+  destruct (mapM_ext (fun _ : unit => mapM (deep_copy value_depth) xs)
+              (fun _ N h (p : list loc) => Forall (all_fresh N h) p) Qm Hg _ _ _ _ H3 W) as [X1 X2].
+  specialize (X2 _ eq_refl). pose proof X1 as (E1 & W1 & U1).
+  apply alloc_inv in H. destruct H as [Ec ->]. inversion Ec; subst c; clear Ec.
+  assert (AF : all_fresh (hnext (st_heap s)) (snd (halloc (st_heap s1) (HArr (List.concat parts)))) (hnext (st_heap s1))).
+  { apply all_fresh_new; auto; [apply E1|].
+    apply Forall2_Forall_r in X2. clear -X2. induction X2; simpl; [constructor|].
+    apply Forall_app; split; auto. }
+  split; [|split; [|split]]; simpl.
+  - eapply heap_extends_trans; [exact E1 | apply heap_extends_halloc; auto].
+  - generalize (snd (halloc (st_heap s1) (HArr (List.concat parts)))). intro h. rewrite U1. reflexivity.
+  - eexists. apply hget_halloc_new.
+  - intros x R. destruct (AF x R) as [A _]. split; [auto | apply W; auto].
+Qed.
